@@ -57,7 +57,12 @@ pub fn gen(rng: &mut Rng, tier: Tier, idx: u64) -> Case {
     };
     let enc = refcodec::ref_encode(&a, sw.fam, &c.style);
     let bounds = span_bounds(&enc.spans);
-    if rng.chance(1, 6) {
+    if rng.chance(1, 8) {
+        // two aimed malformations at once: the reported error must still not depend on the schedule
+        if let Some(f) = crate::malform::pair(&a, sw.fam, rng.next_u64()) {
+            c.stream = Bs(f);
+        }
+    } else if rng.chance(1, 6) {
         // an aimed malformation from the catalogue (F12) instead of the valid frame
         let mals = crate::malform::enumerate(&a, sw.fam);
         if !mals.is_empty() {
